@@ -9,6 +9,16 @@ is replayed under each loading strategy:
     provider.max_params_count forced to 2 (batch splitting) | prefetch() of every relation first
 The observation sequences must be identical; only the number of statements may differ (recorded as
 vacuity guard that the strategies really differ).
+
+Cross-session part. The SQL text of seed loads, partial collection loads, lazy loads ... is cached per
+process (`Entity._batchload_sql_cache_`, `attr.cached_load_sql`, ...), so what a session observes may
+depend on what an EARLIER session of the process loaded (seeded change C23-2). Breadth-first order
+always executes the short histories first and thereby warms these caches in one fixed order; every
+history is therefore also replayed, under every strategy including the default one, as the SECOND
+session of a process whose statement caches were emptied and then warmed by one of two earlier
+sessions: `nav` (navigate every to-one reference one by one, then read a scalar of every object: seed
+loads of batch size 1) and `scan` (scan every entity, then read the scalars: batched seed loads).
+Emptying a cache is what a fresh process is; the observations must still equal the default run's.
 """
 from vf import core
 from vf.engines import sx
@@ -29,6 +39,29 @@ def build(base, strategy):
     env = sx.Env(catalog.make(**kw))
     if strategy == 'maxparams2': env.db.provider.max_params_count = 2
     return env
+
+WARMUPS = ['nav', 'scan']
+ENTITY_CACHES = ['_find_sql_cache_', '_load_sql_cache_', '_batchload_sql_cache_', '_insert_sql_cache_', '_update_sql_cache_', '_delete_sql_cache_']
+
+def clear_sql_caches(env):
+    """what a fresh process starts with: no cached statement text on entities and attributes"""
+    for e in env.db.entities.values():
+        for name in ENTITY_CACHES: getattr(e, name).clear()
+        e._cached_max_id_sql_ = None
+        for a in e._new_attrs_:
+            if getattr(a, 'lazy_sql_cache', None) is not None: a.lazy_sql_cache = None
+            if a.is_collection:
+                a.cached_load_sql.clear()
+                a.cached_add_m2m_sql = a.cached_remove_m2m_sql = a.cached_count_sql = a.cached_empty_sql = None
+
+def warm_history(env, kind):
+    reads = [r for r in env.reads() if r[0] == 'r_attr' and not r[1].endswith(':3')]
+    def is_ref(r):
+        a = env.E[r[1].split(':')[0]]._adict_.get(r[2])
+        return a is not None and a.reverse is not None and not a.is_collection
+    scalars = [r for r in reads if not is_ref(r)]
+    if kind == 'nav': return [r for r in reversed(reads) if is_ref(r)] + scalars   # referencing objects first: the targets are then seeds
+    return [('r_all', root) for root in env.root_entities] + scalars
 
 def _op_prefetch_all(self):
     """select every entity with prefetch of all its relations (and lazy attributes)"""
@@ -61,6 +94,7 @@ def worker(args):
     d = envs['default']
     name = d.model.name
     ops = alphabet(d)
+    warms = dict(((s, w), warm_history(envs[s], w)) for s in STRATEGIES for w in WARMUPS)
     ex = sx.Explorer(d, fixtures=('populated',), ops=ops)
     presigs = {}
     stmt = dict((s, 0) for s in STRATEGIES)
@@ -78,16 +112,27 @@ def worker(args):
         for s in STRATEGIES[1:]:
             obs = run_under(s, hist)
             sub.count('strategy_runs')
-            if obs == ref: continue
+            judge(s, hist, ref, obs, lambda h, s=s: run_under(s, h))
+        for w in (WARMUPS if len(hist) <= 2 else ()):    # thorough: the third operation is explored without restarts
+            for s in STRATEGIES:
+                def run_warm(h, s=s, w=w):
+                    clear_sql_caches(envs[s])
+                    envs[s].run(warms[s, w], 'populated')
+                    return run_under(s, h)
+                obs = run_warm(hist)
+                sub.count('warm_runs')
+                judge(s + '+after-' + w, hist, ref, obs, run_warm)
+    def judge(s, hist, ref, obs, rerun):
+            if obs == ref: return
             i = next(k for k in range(min(len(obs), len(ref)) + 1) if k >= len(obs) or k >= len(ref) or obs[k] != ref[k])
             pre = (s, sx.kinds(hist[:i + 1]), hist[min(i, len(hist) - 1)][0])
             if pre in presigs:
-                sub.violation(presigs[pre], {}, ''); continue
+                sub.violation(presigs[pre], {}, ''); return
             def differs(h):
                 a = d.run(h, 'populated').obs
-                return run_under(s, h) != a and not any(o[0] == 'skip' for o in a)
+                return rerun(h) != a and not any(o[0] == 'skip' for o in a)
             small = sx.shrink(list(hist[:i + 1]), differs)
-            a = d.run(small, 'populated').obs; b = run_under(s, small)
+            a = d.run(small, 'populated').obs; b = rerun(small)
             last = small[-1]
             sig = '%s|%s|%s|%s(%s)|default=%s %s=%s' % (base['rel'] + ('-req' if base.get('req') else '') + ('-inh' if base.get('inherit') else ''),
                                                    s, sx.kinds(small[:-1]) or '-', last[0], last[2] if len(last) > 2 and isinstance(last[2], str) else '',
@@ -120,14 +165,18 @@ def run(ctx):
     base = c.get('statements:default', 0)
     ctx.guard('strategies whose statement count differs from default',
               len([s for s in STRATEGIES[1:] if c.get('statements:' + s, 0) != base]), 3)
-    ctx.cov['bounds'] = 'read/modify histories of depth <= %d on the populated fixture of 10 relationship models x 7 loading strategies' % (2 if ctx.quick else 3)
+    ctx.guard('warm (second-session) runs', c.get('warm_runs', 0), 1000)
+    ctx.cov['bounds'] = ('read/modify histories of depth <= %d on the populated fixture of 10 relationship models x 7 loading strategies, '
+                         'each also as second session after a cache-emptying restart + warm-up session (nav, scan) under all 7 strategies' % (2 if ctx.quick else 3))
     ctx.assume('SQLite only; prefetch strategy = a full prefetching scan of every entity at the start of the session')
     return dict(states=agg['states'], transitions=agg['transitions'],
-                traces_validated_against_impl=agg['executions'] + c.get('strategy_runs', 0))
+                traces_validated_against_impl=agg['executions'] + c.get('strategy_runs', 0) + c.get('warm_runs', 0))
 
 def replay(ctx, case):
-    base = case['rel']; s = case['strategy']
+    base = case['rel']; s, _, w = case['strategy'].partition('+after-')
     d = build(base, 'default'); e = build(base, 'default' if s == 'prefetch' else s)
+    if w:
+        clear_sql_caches(e); e.run(warm_history(e, w), 'populated')
     hist = [tuple(tuple(x) if isinstance(x, list) else x for x in o) for o in case['history']]
     a = d.run(hist, 'populated').obs
     h = ([('prefetch_all',)] if s == 'prefetch' else []) + hist
